@@ -19,6 +19,7 @@ P = Pack("C06", ["src/binarydiff.c", "src/output.c"], "delta stream well-formedn
 PACKS = [P]
 P.assume("buffers are arbitrary byte sequences; field headers are read through content functions of the byte position")
 P.assume("B1/B2 (field boundary) are defined by closure: B(64); B(p) & header fits & type(p)!=END => B(p+16+size(p))")
+P.assume("precondition: both buffers are END-terminated serialisations (every field boundary carries a complete header inside the buffer) -- established by reb_simulation_save_to_stream, which always appends END + trailer")
 P.assume("output_option in {0,2}: the two modes the library itself uses (archive append, comparison); the printing modes "
          "1 and 3 are not under contract")
 P.not_decided += ["index walk over arbitrary multi-blob histories (reader side) and cadence bookkeeping: not yet under contract",
@@ -40,8 +41,9 @@ def setup(v, option):
     u64 = eng.ctype("unsigned long")
     T = {1: lambda p: eng.content("buf1", ("reb_binary_field", "type"), u32, p),
          2: lambda p: eng.content("buf2", ("reb_binary_field", "type"), u32, p)}
-    S = {1: lambda p: eng.content("buf1", ("reb_binary_field", "size"), u64, p),
-         2: lambda p: eng.content("buf2", ("reb_binary_field", "size"), u64, p)}
+    soff = eng.tu0.offsetof("reb_binary_field", "size")
+    S = {1: lambda p: eng.content("buf1", ("reb_binary_field", "size"), u64, p + soff),
+         2: lambda p: eng.content("buf2", ("reb_binary_field", "size"), u64, p + soff)}
     B = {1: z3.Function("B1", z3.IntSort(), z3.BoolSort()), 2: z3.Function("B2", z3.IntSort(), z3.BoolSort())}
     p = z3.Int("p!ax")
     sizes = {1: size1, 2: size2}
@@ -50,6 +52,9 @@ def setup(v, option):
         v.assume(z3.ForAll([p], z3.Implies(z3.And(B[k](p), p + HDR <= sizes[k], T[k](p) != END), B[k](p + HDR + S[k](p)))))
         v.assume(z3.ForAll([p], S[k](p) >= 0))          # size_t
         v.assume(z3.ForAll([p], z3.Implies(B[k](p), p >= 64)))
+        # precondition (what reb_simulation_save_to_stream guarantees): the field sequence is terminated by an END
+        # header inside the buffer, i.e. every field boundary is followed by a complete header
+        v.assume(z3.ForAll([p], z3.Implies(B[k](p), p + HDR <= sizes[k])))
     v.assume(size1 >= 64, size2 >= 64)
 
     # reb_output_stream_write -> ghost trace
@@ -148,12 +153,16 @@ def diff_task(option):
                     ("pos2_kept", L.pos2 == L.old("pos2"))]
 
         def triv(L):
-            return [("t", z3.BoolVal(True))]
-        v.loop(fn, 0, invariant=main_inv)
-        v.loop(fn, 1, invariant=search2_inv)
-        v.loop(fn, 2, invariant=triv)
-        v.loop(fn, 3, invariant=main_inv)
-        v.loop(fn, 4, invariant=search1_inv)
+            return [("i_nonneg", L.i >= 0)]
+        # loops are identified by structure, not by position: outer passes (depth 0) contain the stream writes;
+        # the search loops (depth 1, while) declare nothing and call nothing; element loops (for) compare payloads
+        outer = v.loop_where(fn, lambda i: i["depth"] == 0 and i["kind"] == "WhileStmt", invariant=main_inv)
+        v.ground("two_passes", len(outer) == 2, "outer loops: %s" % outer)
+        inner = [o for (o, i) in v.loops_of(fn) if i["depth"] == 1 and i["kind"] == "WhileStmt"]
+        v.ground("two_search_loops", len(inner) == 2, str(inner))
+        v.loop(fn, inner[0], invariant=search2_inv)
+        v.loop(fn, inner[1], invariant=search1_inv)
+        v.loop_where(fn, lambda i: i["kind"] == "ForStmt", invariant=triv)
         ret = v.call(fn, E["b1"], size1, E["b2"], size2, E["bufpp"], E["sizepp"], z3.IntVal(option))
         v.prove("returns_boolean", z3.Or(ret == 0, ret == 1))
     return _
